@@ -148,16 +148,24 @@ class Gen:
         return getattr(self, 'mk_' + cls)(kind, d)
 
     # polymorphic ------------------------------------------------------------
+    def far_offset(self, off, size):
+        """sometimes an offset outside 0..size-1: the starting index wraps
+        around the (cyclic) list, as Pser and Pslide of the library do and as
+        sclang's wrapAt does"""
+        if self.r.random() < 0.12:
+            return self.r.randint(-2 * size - 1, 2 * size + 1)
+        return off
+
     def mk_Pseq(self, kind, d):
         items = self.items(kind, d)
         off = self.r.randrange(len(items)) if self.r.random() < 0.5 else 0
-        if 'offset' in LIFT and self.r.random() < 0.4:
-            off = self.r.randint(-2 * len(items), 2 * len(items))
+        off = self.far_offset(off, len(items))
         return ('Pseq', items, self.repeats(), off)
 
     def mk_Pser(self, kind, d):
         items = self.items(kind, d)
-        return ('Pser', items, self.repeats(0, 7), self.r.randrange(len(items)))
+        return ('Pser', items, self.repeats(0, 7),
+                self.far_offset(self.r.randrange(len(items)), len(items)))
 
     def mk_Place(self, kind, d):
         r = self.r
@@ -174,7 +182,8 @@ class Gen:
             # a literal list item would be read as an interlace list: use
             # patterns only for list-valued kinds
             items = [i if isnode(i) else self.g(kind, d - 1) for i in items]
-        off = r.randrange(len(items)) if r.random() < 0.4 else 0
+        off = self.far_offset(r.randrange(len(items)) if r.random() < 0.4 else 0,
+                              len(items))
         return ('Place', items, self.repeats(0, 4), off)
 
     def mk_Placep(self, kind, d):
@@ -184,7 +193,8 @@ class Gen:
                  else self.lit(kind) for _ in range(r.randint(1, 4))]
         if not any(isnode(i) for i in items):
             items[0] = self.g(self.subkind(kind), d - 1)
-        off = r.randrange(len(items)) if r.random() < 0.4 else 0
+        off = self.far_offset(r.randrange(len(items)) if r.random() < 0.4 else 0,
+                              len(items))
         return ('Placep', items, self.repeats(0, 6, 0.3), off)
 
     def mk_Pn(self, kind, d):
